@@ -36,8 +36,14 @@ def run(ctx):
         cases += conc_common.gen(ctx, "ConcGen_coll3.cfg", "coll", simulate="num=1500", limit=1500)
     if len(cases) < 500:
         raise vf.Inconclusive("only %d schedules generated" % len(cases))
-    ctx.cov["schedules_generated_by_tlc"] = len(cases)
+    # counterexample schedules of the variant whose create path is not re-validated under the lock
+    att = conc_common.attacks(ctx, "ConcGen_coll_pinned.cfg", "coll", "commitValid", 3000 if thorough else 300)
+    ctx.cov["attack_schedules"] = len(att)
+    if len(att) < 20:
+        raise vf.Inconclusive("only %d attack schedules found" % len(att))
+    ctx.cov["schedules_generated_by_tlc"] = len(cases) + len(att)
     conc_common.run_and_check(ctx, "C02", cases, "forced")
+    conc_common.run_and_check(ctx, "C02", att, "attack")
     st = stress_cases(ctx, "val", 12 if not thorough else 40) + stress_cases(ctx, "coll", 25 if not thorough else 80)
     conc_common.run_and_check(ctx, "C02", st, "stress")
     ctx.cov["rule"] = ("forced: every interleaving TLC finds for 2 writers (Value and Collection programs: set, CAS, "
